@@ -5,10 +5,10 @@
      unchanged (w^T r_j = 0);
    - column c: with x the sub-column, u = x + a e, a^2 = x.x:  u.u = 2 u.x, so
      2 w (w^T r_c) = u on the coordinates >= c and the new sub-column is x - u = -a e. *)
-From Coq Require Import PeanoNat List Ring.
+From Coq Require Import PeanoNat List.
 From mathcomp Require Import all_ssreflect all_algebra zify.
 From EasyML Require Import Base.Sx Model.Num Model.LinAlg Model.Decomp Proofs.C07P1 Proofs.C07P2
-     Proofs.C08P3 Proofs.C08P4.
+     Proofs.C08P3 Proofs.C08P4 Proofs.C08P7.
 Set Implicit Arguments. Unset Strict Implicit. Unset Printing Implicit Defensive.
 Import GRing.Theory Num.Theory.
 Local Open Scope ring_scope.
@@ -25,12 +25,11 @@ Variable F : realFieldType.
 Variable sq : F -> F.
 Notation ops := (rops sq).
 
-Lemma F_ring : ring_theory (0 : F) 1 +%R *%R (fun x y => x - y) -%R eq.
+Lemma rops_ring8 : ring_theory (nzero ops) (none_ ops) (nadd ops) (nmul ops) (nsub ops) (nneg ops) (@eq F).
 Proof.
   split => //=; [exact: add0r|exact: addrC|exact: addrA|exact: mul1r|exact: mulrC|exact: mulrA
                  |exact: mulrDl|exact: subrr].
 Qed.
-Add Ring Fring8 : F_ring.
 
 (* sum over the inset coordinates *)
 Lemma sum_inset rows c n' (g f : nat -> F) : (c + n')%N = rows ->
@@ -71,7 +70,7 @@ Proof.
   rewrite (sum_nth (fun e => e * e)).
   set S := \sum_(e <- xs) e * e in Ha *.
   have -> : S = a * a - x0 * x0 by rewrite Ha addrC addKr.
-  rewrite mulr_natl mulr2n. ring.
+  rewrite mulr_natl mulr2n. exact: (@hu_scalar F ops rops_ring8 a x0).
 Qed.
 
 Lemma nth_hu_tail (x : list F) t :
@@ -120,7 +119,7 @@ Proof.
   { move=> t Ht. rewrite /col nth_skipn_add nth_column // Hrl. exact/ltP. }
   set h := pad_h ops (householder ops col) c rows.
   have Hmx : mxo sq rows cols (mmul ops h r) = hh (wvec sq rows c col) *m mxo sq rows cols r.
-  { rewrite (mxo_mmul (wf2_pad_h ops _ c rows) Hr); last by lia.
+  { rewrite (@mxo_mmul F sq rows rows cols _ _ (wf2_pad_h ops _ c rows) Hr); last by lia.
     by rewrite mxo_pad_householder. }
   set u := householder_u ops col in Hs Hsq.
   set s := sumsq ops u in Hs Hsq.
@@ -132,7 +131,7 @@ Proof.
   { move=> j. under eq_bigr => k _ do rewrite !mxE.
     exact: (sum_inset (fun t => List.nth t (householder_v ops col) 0) (fun k => mget ops r k j) Hrows). }
   move=> i j Hj Hjc Hji Hi.
-  have := congr1 (fun M => M (Ordinal Hi) (Ordinal Hjc)) Hmx.
+  have := congr1 (fun M : 'M[F]_(rows, cols) => M (Ordinal Hi) (Ordinal Hjc)) Hmx.
   rewrite [LHS]mxE /= => ->. rewrite hh_mul_entry Hsigma [mxo _ _ _ _ _ _]mxE /=.
   have [Hjlt|Hjeq] : (j < c)%N \/ j = c by lia.
   - (* an already finished column *)
@@ -155,8 +154,35 @@ Proof.
     { have -> : (i - c)%N = (i - c).-1.+1 by lia. exact: nth_hu_tail. }
     set X := List.nth _ col 0.
     have -> : 2%:R * (X / sq s * (D / sq s)) = X.
-    { rewrite mulf_div Hsq mulrA [2%:R * _]mulrC -mulrA -mulrA [D / s]mulrC mulrA [2%:R * _]mulrC.
-      rewrite [_ * 2%:R]mulrC -HsD mulrA mulVf // ?mul1r //. }
+    { by rewrite mulf_div Hsq mulrA [2%:R * (X * D)]mulrCA -HsD mulfK. }
     by rewrite subrr.
+Qed.
+
+Lemma qr_loop_tri rows cols k : forall c0 q (r : list (list F)),
+  wf2 rows cols r -> (c0 + k <= rows)%N -> (c0 + k <= cols)%N ->
+  qr_regular sq rows (List.seq c0 k) r -> qr_lengths_ok rows (List.seq c0 k) r ->
+  tri_upto rows cols c0 r ->
+  tri_upto rows cols (c0 + k) (qr_loop ops rows (List.seq c0 k) q r).2.
+Proof.
+  elim: k => [|k IH] c0 q r Hr H1 H2 /= Hreg Hlen Htri; first by rewrite addn0.
+  case: Hreg => Hs [Hsq Hreg]. case: Hlen => Hl Hlen.
+  rewrite addnS -addSn. apply: IH => //; try lia.
+  - apply: (@wf2_mmul F ops rows rows cols) => //; [exact: wf2_pad_h|lia].
+  - apply: qr_step_tri => //; try lia. exact/eqP.
+Qed.
+
+(* R is upper triangular *)
+Theorem qr_upper_triangular rows cols (m q r : list (list F)) :
+  wf2 rows cols m -> (1 <= rows)%N -> qr ops m = Some (q, r) ->
+  qr_regular sq rows (List.seq 0 (Nat.min (rows - 1) cols)) m ->
+  qr_lengths_ok rows (List.seq 0 (Nat.min (rows - 1) cols)) m ->
+  forall i j, (j < i)%N -> (i < rows)%N -> (j < cols)%N -> mget ops r i j = 0.
+Proof.
+  move=> Hm Hrows Hqr Hreg Hlen i j Hji Hi Hj.
+  have Hc : mcols m = cols by apply: wf2_mcols Hm _; apply/leP.
+  have Hl : mrows m = rows by case: Hm.
+  move: Hqr. rewrite /qr Hl Hc. case: Nat.ltb_spec => // Hcr [_ <-].
+  have := @qr_loop_tri rows cols (Nat.min (rows - 1) cols) 0 None m Hm.
+  rewrite add0n. apply=> //; try lia.
 Qed.
 End Tri.
